@@ -62,7 +62,13 @@ fn cmd_walk(a: &HashMap<String, String>) -> i32 {
             None => *[Some(1u16), Some(2), Some(3), Some(10), None].get(rng.gen_range(0..5)).unwrap(),
         };
         let m = a.get("M").and_then(|s| s.parse().ok());
-        let p = session::Params { run, fam: profile.clone(), r, m, disc: disc.clone(), ..Default::default() };
+        // two runs in five start with packet identifiers beyond one byte (a few right below the 16-bit wrap)
+        let burn = match a.get("burn").and_then(|s| s.parse().ok()) {
+            Some(b) => b,
+            None => *[0u32, 0, 0, 250 + (run as u32 % 12), 1020 + (run as u32 % 8)].get(rng.gen_range(0..5)).unwrap(),
+        };
+        let burn = if burn > 0 && run % 40 == 7 { 65_520 } else { burn };
+        let p = session::Params { run, fam: profile.clone(), r, m, disc: disc.clone(), burn, ..Default::default() };
         let (script, trace) = session::walk(&p, &cfg, rseed);
         for l in trace {
             writeln!(out, "{}", l).unwrap();
@@ -143,6 +149,7 @@ fn real_main() -> i32 {
         "reconn" => families::reconn(&a),
         "reuse" => families::reuse(&a),
         "backlog" => families::backlog(&a),
+        "sidwrap" => families::sidwrap(&a),
         "chunk" => families::chunk(&a),
         "fuzz" => families::fuzz(&a),
         "endings" => families::endings(&a),
